@@ -562,3 +562,99 @@ Proof. unfold gen_tc_less, tc_less. destruct (tc_idx a), (tc_idx b); reflexivity
 
 Theorem ref_tc_sort_stable : gen_tc_sort_stable = true.
 Proof. reflexivity. Qed.
+
+(* with any fuel above the nesting depth of the chunks the unrolled code is concat_maps_top *)
+Section User4.
+Context {U : UserFn}.
+
+Theorem ref_concat_maps_top fuel mt l : dmaps l < fuel ->
+  gen_maps_fuel fuel (TMap mt, map (CMap mt) l) = res_map (wrap mt) (concat_maps_top l).
+Proof.
+  intros H. rewrite ref_concat_maps. f_equal. unfold concat_maps_top.
+  apply fuel_indep; try lia.
+  - eapply Forall_impl; [|apply bounded_top]. cbn beta. intros a Ha. lia.
+  - apply bounded_top.
+Qed.
+
+End User4.
+
+(* ---------------------------------------------------------------- the stream entry points *)
+From Eino Require Import Model.ConcatStream.
+
+Section Stream.
+Variable X : Type.
+Variable zero : X.
+
+(* what every stream entry point does with the chunks it read *)
+Definition entry_of (ci : list X -> res X) (vs : list X) : res X :=
+  match vs with
+  | [] => Err E_EMPTY
+  | [v] => Ok v
+  | _ => ci vs
+  end.
+
+Lemma c_loop_S {St R} n (body : St -> ctl (St + St) R) s :
+  c_loop (S n) body s = match body s with Next (inl s') => c_loop n body s' | Next (inr s') => Next s' | Return r => Return r end.
+Proof. reflexivity. Qed.
+
+Lemma drain_loop : forall (s : list (sitem X)) (items : list X),
+  c_loop (R := X) (S (List.length s)) (fun '(sr, items) =>
+        let '(chunk, err, sr) := (r_recv zero sr) in
+        if (negb (rerr_is_nil err)) then (if (rerr_is_eof err) then (Next (inr (sr, items)))
+          else let t := zero in
+          Return (r_ret t err))
+        else let items := (items ++ [chunk]) in
+        Next (inl (sr, items)))
+      (s, items)
+  = match drain s with
+    | Some r => Next ([], items ++ r)
+    | None => Return (Err E_READ)
+    end.
+Proof.
+  induction s as [|[a|] s IH]; intros items.
+  - cbn. now rewrite app_nil_r.
+  - change (List.length (SVal a :: s)) with (S (List.length s)). rewrite c_loop_S.
+    cbn [r_recv rerr_is_nil negb drain]. cbv zeta in *. rewrite IH.
+    destruct (drain s); [rewrite <- app_assoc|]; reflexivity.
+  - reflexivity.
+Qed.
+
+Theorem ref_concatStreamReader ci (s : list (sitem X)) :
+  gen_concatStreamReader X zero ci s = stream_entry (entry_of ci) s.
+Proof.
+  unfold gen_concatStreamReader, stream_entry. cbv zeta.
+  pose proof (drain_loop s []) as H. cbv zeta in H. rewrite H. clear H.
+  destruct (drain s) as [[|v [|w r]]|]; try reflexivity.
+  cbn. destruct (ci (v :: w :: r)); reflexivity.
+Qed.
+
+Lemma drain_loop_msg : forall (s : list (sitem X)) (msgs : list X),
+  c_loop (R := X) (S (List.length s)) (fun '(s, msgs) =>
+        let '(msg, err, s) := (r_recv zero s) in
+        if (negb (rerr_is_nil err)) then (if (rerr_is_eof err) then (Next (inr (s, msgs)))
+          else Return (r_ret zero err))
+        else let msgs := (msgs ++ [msg]) in
+        Next (inl (s, msgs)))
+      (s, msgs)
+  = match drain s with
+    | Some r => Next ([], msgs ++ r)
+    | None => Return (Err E_READ)
+    end.
+Proof.
+  induction s as [|[a|] s IH]; intros msgs.
+  - cbn. now rewrite app_nil_r.
+  - change (List.length (SVal a :: s)) with (S (List.length s)). rewrite c_loop_S.
+    cbn [r_recv rerr_is_nil negb drain]. cbv zeta in *. rewrite IH.
+    destruct (drain s); [rewrite <- app_assoc|]; reflexivity.
+  - reflexivity.
+Qed.
+
+Theorem ref_ConcatMessageStream ci (s : list (sitem X)) :
+  gen_ConcatMessageStream X zero ci s = stream_entry (entry_of ci) s.
+Proof.
+  unfold gen_ConcatMessageStream, stream_entry. cbv zeta.
+  pose proof (drain_loop_msg s []) as H. cbv zeta in H. rewrite H. clear H.
+  destruct (drain s) as [[|v [|w r]]|]; reflexivity.
+Qed.
+
+End Stream.
